@@ -1,4 +1,5 @@
-"""C11: atan odd; atan2 axis values and quadrant signs (decided). Accuracy, |atan| <= pi/2 and near-monotonicity are not decided."""
+"""C11: atan odd and within 5e-5; atan2 axis values, quadrant signs, and within 8e-5 by composition (decided).
+|atan| <= pi/2 and near-monotonicity are not decided."""
 from . import common, lib
 from .lib import M, FIN, E, sym
 from .c09 import const_of
@@ -30,6 +31,17 @@ def run(tier, seed):
                     V.violation(a.kind, a.site, "%s in w_atan(%s) at %s" % (a.kind, a.witness, a.where), lib.rp(ra, a.witness, a.kind))
                 elif a.status == "inconclusive":
                     V.inconc("w_atan: %s at %s unresolved" % (a.kind, a.where))
+            if cfg == configs[0] or tier != "quick":
+                atan_accuracy(V, ctx, cfg, pd2, fine=(tier != "quick"))
+                ncomp = atan2_composition(V, ctx, cfg, phi)
+                # numeric lemma for atan2: A + 1 + |phi - 65536 pi| <= 8e-5 * 65536
+                from fractions import Fraction
+                from . import realmath as R
+                pil, pih = R.to_frac(R.pi())
+                dphi = max(abs(phi - 65536 * pil), abs(phi - 65536 * pih))
+                tot = Fraction(5, 100000) * 65536 + 1 + dphi
+                V.oblige(tot <= Fraction(8, 100000) * 65536)
+                V.cover.setdefault("atan2_composition", {})[cfg] = {"paths": ncomp, "budget_raw_units": float(tot), "allowed": 8e-5 * 65536}
             # atan2(y, x): parameter 0 is y, parameter 1 is x
             y, x = sym(0), sym(1)
             boxes = [
@@ -67,9 +79,138 @@ def run(tier, seed):
                         V.violation(a.kind, a.site, "%s in w_atan2(%s) at %s" % (a.kind, a.witness, a.where), lib.rp(r, a.witness, a.kind))
         except Broken as e:
             V.broke("%s: %s" % (cfg, e))
-    expl = ("DECIDED: atan(-x) == -atan(x) for |x| < 2^31 by summary equivalence; atan2(y,x) on |x|,|y| < 2^31: x == 0 gives exactly "
-            "+-fixpidiv2 by the sign of y, (0,0) gives NaN, y == 0 gives 0 for x > 0 and phi for x < 0 (the zero propagates through 0/x, the "
-            "series and the final product), and in every open quadrant the result interval has the sign of y (never negative for y > 0, never "
-            "positive for y < 0) and excludes NaN. NOT DECIDED: the 5e-5 / 8e-5 accuracy bounds, |atan| <= pi/2 and x <= y => atan x <= atan y + 2 ulp "
-            "(numeric; DESIGN section 6).")
+    expl = ("DECIDED: atan(-x) == -atan(x) by summary equivalence. atan accuracy: [0, 2^63) is cut into cells of geometrically growing width; "
+            "on each cell and path (all five argument segments, including the quotient (x-c)/(1+x*c)) the idealised real expression of the "
+            "returned form is evaluated by interval automatic differentiation with a rounding budget and compared with the interval oracle for "
+            "atan and 1/(1+x^2): |atan_lib(x) - 65536 atan x| <= 5e-5*65536 on every cell; the constant tail x >= 2^24 is compared with "
+            "atan(2^24) and pi/2. atan2: x == 0 gives exactly +-fixpidiv2, (0,0) NaN, y == 0 gives 0 / phi; in every open quadrant the result "
+            "has the sign of y; every path with x != 0 returns atan_lib(q) + c with q the value-numbered truncated quotient 65536*y/x and c in "
+            "{0, +phi, -phi} by quadrant (abstract re-execution of atan on the quotient symbol), hence |atan2_lib - angle| <= 5e-5*65536 + 1 "
+            "(truncation of q, atan is 1-Lipschitz) + |phi - 65536 pi| < 8e-5*65536. NOT DECIDED: |atan| <= pi/2 (the proved enclosure allows "
+            "up to pi/2 + 5e-5) and x <= y => atan x <= atan y + 2 ulp.")
     return V.finish("other", expl, "./fx check C11 --tier %s" % tier, extra={"configs": configs})
+
+
+# ------------------------------------------------------------------ atan accuracy, cell by cell
+def atan_truth(a, b, x0):
+    from fractions import Fraction
+    from . import realmath as R
+    t0 = R.atan_iv(R.iv(Fraction(x0, 65536))) if x0 != 0 else (0, 0)
+    tl, th = R.to_frac(t0)
+    xa, xb = Fraction(a, 65536), Fraction(b, 65536)
+    # derivative of 65536*atan(x/65536) wrt raw x is 1/(1+x^2), decreasing in |x| (cells do not straddle 0 except [0,..])
+    lo2 = min(xa * xa, xb * xb) if xa * xb > 0 else Fraction(0)
+    hi2 = max(xa * xa, xb * xb)
+    return (65536 * tl, 65536 * th), (1 / (1 + hi2), 1 / (1 + lo2))
+
+
+def atan_accuracy(V, ctx, cfg, pd2, fine=False):
+    from fractions import Fraction
+    from . import fxnum, realmath as R
+    TOP = (1 << 63) - 2
+    r = ctx.run("w_atan", [("i", 0, TOP)])
+    A = Fraction(5, 100000) * 65536          # 5e-5 in raw units
+
+    def adapt(a):
+        return max(64, a >> (9 if fine else 8))
+
+    def bound(a, b):
+        return A
+
+    def point_ok(x, out):
+        if out[0] != "ret":
+            return False
+        t = R.atan_iv(R.iv(Fraction(x, 65536))) if x else (0, 0)
+        tl, th = R.to_frac(t)
+        return 65536 * tl - A <= out[1] <= 65536 * th + A
+    # paths with a constant result (huge arguments): the truth is within [atan(lo), pi/2)
+    consts = []
+    work_box_hi = 0
+    for p in r.paths:
+        lo, hi = p.state.bounds["p0"]
+        rl, rh = lib.ret_rng(p)
+        if rl == rh and hi - lo > 1 << 30:
+            t = R.atan_iv(R.iv(Fraction(lo, 65536)))
+            tl, th = R.to_frac(t)
+            pil, pih = R.to_frac(R.pi())
+            ok = abs(rl - 65536 * tl) <= A and abs(rl - 65536 * pih / 2) <= A
+            V.oblige(ok)
+            consts.append((lo, hi, rl, ok))
+            if not ok:
+                V.violation("|atan(x) - atan x| <= 5e-5", "atan", "atan is the constant %d on [%d,%d] but 65536*atan(%d) = %.3f" % (rl, lo, hi, lo, float(65536 * tl)),
+                            lib.rp(r, (lo,), "atan accuracy"))
+        else:
+            work_box_hi = max(work_box_hi, hi)
+    fails, info = fxnum.prove_cells(V, r, atan_truth, bound, "atan accuracy 5e-5", "atan", box=(0, work_box_hi), adapt=adapt, min_cells=2000)
+    fxnum.triage_fails(V, r, fails, point_ok, "|atan(x) - atan x| <= 5e-5", "atan")
+    info["constant_tail"] = [[c[0], c[1], c[2]] for c in consts]
+    return info
+
+
+def atan2_composition(V, ctx, cfg, phi):
+    """every path of atan2 with x != 0 returns atan_lib(q) + c with q the truncated quotient 65536*y/x and c in {0, +phi, -phi} by
+    quadrant: decided by abstract re-execution of atan on the quotient symbol of the path"""
+    from fxai.lin import Lin
+    from fxai import pipeline as P
+    from fxai.interp import Broken
+    from fxai.state import Infeasible
+    y, x = sym(0), sym(1)
+    ratan = ctx.run("w_atan", [("i", -(M - 1), M - 1)])
+    quads = [("x>0", [("i", -T47, T47), ("i", 1, T47)], 0), ("x<0,y>=0", [("i", 0, T47), ("i", -T47, -1)], phi),
+             ("x<0,y<0", [("i", -T47, -1), ("i", -T47, -1)], -phi)]
+    n = 0
+    for nm, bx, c in quads:
+        r = ctx.run("w_atan2", bx)
+        for p in r.paths:
+            st = p.state
+            # the quotient symbol of this path: sdiv(65536*y, x)
+            q = None
+            for s_ in st.bounds:
+                d = r.an.symdef.get(s_)
+                if d is not None and d[0] == "div" and d[1].key() == y.scale(65536).key() and d[2].key() == x.key():
+                    q = Lin.sym(s_)
+            if q is None:
+                # constant-folded quotient (e.g. y == 0): take any 64 bit value whose form is a quotient of the parameters
+                if lib.pbox(st)["p0"] == (0, 0):
+                    q = Lin.const(0)
+            ok = False
+            why = "no quotient symbol sdiv(65536*y, x) on this path"
+            if q is not None:
+                try:
+                    init = P.init_state_from(ratan.an.fn, st, {0: q})
+                    res = ratan.an.run(init)
+                    same = bool(res.paths) and not res.alarms
+                    for z in res.paths:
+                        s2 = lib.join_states(st, z.state)
+                        if s2 is None:
+                            continue
+                        lo, hi = s2.rng_lin_int(p.ret.lin.sub(z.ret.lin))
+                        if not (lo == hi == c):
+                            same = False
+                            why = "atan2 - atan(q) ranges over [%d,%d], expected the constant %d" % (lo, hi, c)
+                            break
+                    ok = same
+                except (Broken, Infeasible) as e:
+                    why = "re-execution of atan on the quotient failed: %s" % e
+            V.oblige(ok)
+            n += 1
+            if not ok:
+                import random
+
+                def bad(a, o):
+                    yy, xx = a
+                    if xx == 0 or o[0] != "ret":
+                        return False
+                    qq = abs(yy * 65536) // abs(xx)
+                    if (yy < 0) != (xx < 0):
+                        qq = -qq
+                    o2 = ratan.conc((qq,))
+                    cc = 0 if xx > 0 else (phi if yy >= 0 else -phi)
+                    return o2[0] != "ret" or o[1] != o2[1] + cc
+                args, out = lib.search(r, st, bad, random.Random(V.seed))
+                if args is not None:
+                    V.violation("atan2(y,x) == atan(y/x) + quadrant offset", "atan2", "atan2(%d, %d) [%s]: %s is not atan(trunc(65536*y/x)) %+d" % (
+                        args[0], args[1], cfg, lib.out_str(out), c), lib.rp(r, args, "atan2 composition"))
+                else:
+                    V.inconc("w_atan2 [%s] region %s: %s on path %s" % (cfg, nm, why, lib.describe_path(p)))
+    return n
